@@ -43,7 +43,22 @@ fn corpus(repo: &str) -> Vec<String> {
 fn char_boundary(s: &str, mut i: usize) -> usize { while i < s.len() && !s.is_char_boundary(i) { i += 1; } i.min(s.len()) }
 
 fn gen_input(rng: &mut Rng, corpus: &[String]) -> String {
-    match rng.below(20) {
+    match rng.below(24) {
+        // end-of-input boundaries: the text ends exactly at / inside a token that needs look-ahead (no trailing white space)
+        20 | 21 => {
+            const TAILS: &[&str] = &["1.", "1..", "1..5", "16#FF.", "1.5.", "1.5e", "1e", "16#", "2#", "T#", "T#5", "INT#", "x.", "x#", "%", "%I", "%IX0.", "'", "'a$", "\"", "(*", "(* a *", "/*", "/", "//", "{", ":", ":=", "=", "=>", "<", "<=", "<>", ">", ">=", "*", "**", ".", "..", "&", "^", "@", "$", "#", "-", "1_", "_", "é"];
+            let pre = *rng.pick(&["", "x := ", "a : ARRAY[0..10] OF INT := [", "PROGRAM P\nVAR x : INT; END_VAR\nx := ", "a.", "f(", "1 + "]);
+            let mut s = pre.to_string(); s += *rng.pick(TAILS);
+            if rng.chance(1, 4) { s += *rng.pick(TAILS); }
+            s
+        }
+        // a corpus file cut right after the dot that follows a digit (`0.` of `0..10`, `3.` of `3.14`) or at any token-internal position
+        22 | 23 if !corpus.is_empty() => {
+            let s = rng.pick(corpus).clone();
+            let b = s.as_bytes();
+            let cand: Vec<usize> = (1..b.len()).filter(|i| b[*i] == b'.' && b[*i - 1].is_ascii_digit()).map(|i| i + 1).collect();
+            if cand.is_empty() || rng.chance(1, 3) { let a = char_boundary(&s, rng.below(s.len() as u64 + 1) as usize); s[..a].to_string() } else { s[..*rng.pick(&cand)].to_string() }
+        }
         0..=3 if !corpus.is_empty() => rng.pick(corpus).clone(),
         4..=10 if !corpus.is_empty() => {
             let mut s = rng.pick(corpus).clone();
